@@ -370,11 +370,17 @@ def runOp (op : String) (fields : List String) (impl : String) : Option Verdict 
       let spellFloat := !isHex && s.any (fun c => c == 46 || c == 101 || c == 69)
       let oracle : List String :=
         match impl.splitOn " " with
-        | [_, f, i, _] =>
+        | [_, f, i, _, f64] =>
           (if (f == "t") == spellFloat then [] else ["accessor-isfloat-disagrees-with-spelling"]) ++
-          (if (i == "t") == !spellFloat then [] else ["accessor-isinteger-disagrees-with-spelling"])
+          (if (i == "t") == !spellFloat then [] else ["accessor-isinteger-disagrees-with-spelling"]) ++
+          -- Float64 of the literal against the nearest float64 of the value its spelling denotes (computed by the
+          -- harness with exact rational arithmetic; not judged beyond the float64 range)
+          (if f64 == "F64BAD" then ["accessor-float64-disagrees-with-spelling"] else [])
         | _ => if impl == "NOTNUM" then ["number-spelling-not-one-number-token"] else ["unreadable-result"]
-      pure { model := Bytes.toHexField t.value ++ " " ++ dumpBool isF ++ " " ++ dumpBool isI ++ " " ++ u, oracle }
+      -- the model does not compute floats: the last field (the harness's own Float64 verdict) is echoed
+      let m := Bytes.toHexField t.value ++ " " ++ dumpBool isF ++ " " ++ dumpBool isI ++ " " ++ u
+      let core := " ".intercalate ((impl.splitOn " ").take 4)
+      pure { model := if m == core then impl else m ++ " F64-", oracle }
     | _ => pure { model := "NOTNUM" }
   | "PARSEV", [h] => do
     let s ← Bytes.ofHex h
